@@ -784,7 +784,7 @@ func runWorker(self, scratch string, shard, n int, tier string, only int, traced
 	sent, tmp := filepath.Join(dir, "sentinel"), filepath.Join(dir, "tmp")
 	os.MkdirAll(tmp, 0o755)
 	var skip []string
-	for attempt := 0; attempt < 40; attempt++ {
+	for attempt := 0; attempt < 400; attempt++ {
 		os.RemoveAll(sent)
 		buildSentinel(sent)
 		resFile := filepath.Join(dir, fmt.Sprintf("results-%d.jsonl", attempt))
